@@ -254,7 +254,7 @@ func genRace(tier string, seed uint64) {
 	n := 12
 	jobs := 300
 	if tier == "thorough" {
-		n, jobs = 150, 1500
+		n, jobs = 40, 500
 	}
 	cores := runtime.NumCPU()
 	for i := 0; i < n; i++ {
